@@ -91,7 +91,7 @@ func TestVerifC18GrpcError(t *testing.T) {
 	rep := verifkit.Begin("C18", "grpc-error", "random errors (codes 1..16, UTF-8 messages incl. control characters and percent signs, 0-3 details of registered types with canonical and non-canonical encodings) through proto -> gRPC status -> proto; distinct = error values")
 	defer rep.Write()
 	rng := verifkit.Stream("c18grpcerr")
-	n := verifkit.Scale(20000, 400000)
+	n := verifkit.Scale(20000, 1600000)
 	for i := 0; i < n; i++ {
 		e := vfRandError(rng)
 		orig := proto.Clone(e).(*conformancev1.Error)
@@ -184,7 +184,7 @@ func TestVerifC18Metadata(t *testing.T) {
 	rep := verifkit.Begin("C18", "metadata", "random header lists (0-5 entries, mixed-case names, repeated names in different case, -bin names with unpadded base64 values, 1-3 values) through (a) header list -> metadata.MD -> header list, (b) the client path AppendToOutgoingContext -> FromOutgoingContext -> header list, (c) repeated conversion of the same MD; distinct = header lists")
 	defer rep.Write()
 	rng := verifkit.Stream("c18md")
-	n := verifkit.Scale(20000, 400000)
+	n := verifkit.Scale(20000, 1600000)
 	for i := 0; i < n; i++ {
 		hs, want := vfRandHeaders(rng)
 		rep.Eval(1)
@@ -285,7 +285,7 @@ func TestVerifC18Percent(t *testing.T) {
 		}
 	}
 	rng := verifkit.Stream("c18percent")
-	n := verifkit.Scale(30000, 1000000)
+	n := verifkit.Scale(30000, 4000000)
 	for i := 0; i < n; i++ {
 		var s string
 		if rng.Bool() {
